@@ -1,9 +1,9 @@
 package rules
 
 import (
-	"go/types"
 	"fmt"
 	"go/token"
+	"go/types"
 	"strings"
 
 	"golang.org/x/tools/go/ssa"
@@ -17,7 +17,7 @@ func checkC02(c *an.Ctx) {
 	c.Rule("C02.1", "gate table, cancel column (E2): rows Canceled and (Error∧¬allow_failure) write Canceled on the waiting stage; every other row writes nothing")
 	c.Rule("C02.2", "stage-body table (E2): err=nil → final Done, graph error untouched; err≠nil∧allow_failure → final Done, graph error untouched; err≠nil∧¬allow_failure → final Error, graph error := err, no Done")
 	c.Rule("C02.3", "condition table (E2) in the scheduling loop: condition error → Error + Scheduler.Cancel; condition false → Skipped only; nothing else writes Skipped")
-	c.Rule("C02.4", "error report (E4/E7): ExecutionGraph.error has one writer; LastError returns it; Schedule returns LastError() on every exit; the runner caller returns the nested Schedule's result unchanged")
+	c.Rule("C02.4", "error report (E4/E7): ExecutionGraph.error has one writer; LastError returns it; Schedule returns LastError() on every exit, read after a synchronous wait for the stage goroutines; the runner caller returns the nested Schedule's result unchanged")
 	c.Rule("C02.5", "monotone status (E3/E4): every status write of the scheduling goroutine is dominated by status==Waiting on that stage; Waiting is never written; Running is written at one site")
 	c.Rule("C02.6", "a failure does not stop the others (E4): Scheduler.cancelled is written only by Scheduler.Cancel; its only in-package caller is the condition-error row; the stage goroutine cannot reach Cancel")
 	c.Rule("C02.7", "done test (E2): isDone is false iff some stage is Waiting or Running")
@@ -260,13 +260,13 @@ func errorReport(c *an.Ctx, s *sched, rule string) {
 		for _, v := range an.Sources(an.RetVal(r, 0)) {
 			if call, ok := v.(*ssa.Call); ok {
 				for _, callee := range c.P.Callees(&call.Call) {
-					if callee == last && an.SameValue(call.Call.Args[0], s.schedule.Params[1]) {
+					if callee == last && an.SameValue(call.Call.Args[0], s.graph) {
 						good = true
 					}
 				}
 			}
 			ap := an.AccessPath(v)
-			if ap.LastField() == "error" && an.SameValue(ap.Base, s.schedule.Params[1]) {
+			if ap.LastField() == "error" && an.SameValue(ap.Base, s.graph) {
 				good = true
 			}
 		}
@@ -277,6 +277,119 @@ func errorReport(c *an.Ctx, s *sched, rule string) {
 	}
 	if okSched && nret > 0 {
 		c.OK(rule, an.Short(s.schedule)+":return", s.schedule.Pos(), "all %d exits return the graph's recorded error", nret)
+	}
+	// … and reads it after the stage goroutines were waited for: the operand of `return g.LastError()` is
+	// evaluated before any deferred call runs, so a wait moved into a defer lets Schedule return nil while a
+	// stage that is about to fail is still running
+	if s.launch != nil {
+		waits := func(call *ssa.Call) bool {
+			isWait := func(f *ssa.Function) bool {
+				for _, op := range an.BlockingOps(f) {
+					if _, isDefer := op.Instr.(*ssa.Defer); isDefer {
+						continue
+					}
+					if op.Kind == "wg.Wait" || op.Kind == "recv" || op.Kind == "cond.Wait" {
+						return true
+					}
+				}
+				return false
+			}
+			if an.ShortCallee(&call.Call) == "(*sync.WaitGroup).Wait" {
+				return true
+			}
+			var roots []*ssa.Function
+			for _, callee := range c.P.Callees(&call.Call) {
+				if an.InModule(callee) && callee.Blocks != nil && callee != s.schedule {
+					roots = append(roots, callee)
+				}
+			}
+			for f := range c.P.Reach(roots, func(e an.CallEdge) bool {
+				return e.Kind == an.EdgeCall && an.InModule(e.Callee) && e.Callee != s.schedule
+			}) {
+				if f.Blocks != nil && isWait(f) {
+					return true
+				}
+			}
+			return false
+		}
+		for _, r := range an.Returns(s.schedule) {
+			for _, v := range an.Sources(an.RetVal(r, 0)) {
+				read, ok := v.(ssa.Instruction)
+				if !ok || read.Parent() != s.schedule {
+					continue
+				}
+				isRead := false
+				if call, ok := v.(*ssa.Call); ok {
+					for _, callee := range c.P.Callees(&call.Call) {
+						if callee == last {
+							isRead = true
+						}
+					}
+				}
+				if ap := an.AccessPath(v); ap.LastField() == "error" {
+					isRead = true
+				}
+				if !isRead {
+					continue
+				}
+				// (a return taken before anything was started has nothing to wait for)
+				started := false
+				an.EachInstr(s.schedule, func(in ssa.Instruction) {
+					if started {
+						return
+					}
+					launches := in == ssa.Instruction(s.launch)
+					if ci, ok := in.(ssa.CallInstruction); ok && !launches && s.launchFn != s.schedule {
+						for _, callee := range c.P.Callees(ci.Common()) {
+							if callee == s.launchFn {
+								launches = true
+							} else if an.InModule(callee) && callee.Blocks != nil {
+								if _, ok := c.P.Reach([]*ssa.Function{callee}, func(e an.CallEdge) bool { return e.Kind == an.EdgeCall && an.InModule(e.Callee) })[s.launchFn]; ok {
+									launches = true
+								}
+							}
+						}
+					}
+					if !launches {
+						return
+					}
+					if in.Block() == read.Block() {
+						started = an.InstrIndex(in) < an.InstrIndex(read) || an.CanReach(in.Block(), read.Block()) && inLoop(in.Block())
+					} else {
+						started = an.CanReach(in.Block(), read.Block())
+					}
+				})
+				if !started {
+					continue
+				}
+				waited := false
+				an.EachInstr(s.schedule, func(in ssa.Instruction) {
+					if call, ok := in.(*ssa.Call); ok && !waited && in != read && an.Dominates(in, read) && waits(call) {
+						waited = true
+					}
+				})
+				if !waited {
+					// a drain loop: receives (one per started stage) in a loop behind the scheduling loop, through
+					// whose header every path to the read goes
+					for _, l := range an.Loops(s.schedule) {
+						if l == s.outer || (s.outer != nil && s.outer.Blocks[l.Header]) || len(l.Header.Instrs) == 0 || !an.Dominates(l.Header.Instrs[0], read) || l.Blocks[read.Block()] {
+							continue
+						}
+						for b := range l.Blocks {
+							for _, in := range b.Instrs {
+								if u, ok := in.(*ssa.UnOp); ok && u.Op == token.ARROW {
+									waited = true
+								}
+								if call, ok := in.(*ssa.Call); ok && waits(call) {
+									waited = true
+								}
+							}
+						}
+					}
+				}
+				c.Check(waited, rule, an.Short(s.schedule)+":result-after-wait", read.Pos(), "the run's error is read after the stage goroutines were waited for", "Schedule reads the run's error before waiting for the stages it started (a deferred wait runs after the operand of return was evaluated): a stage still running when the loop is left can fail after the result was taken, and the run reports success")
+			}
+		}
 	}
 	// what is recorded as the run's error is the result of Runner.Run / of the nested Schedule, unchanged
 	// (looked through the runner caller when it is a function of its own)
@@ -293,7 +406,7 @@ func errorReport(c *an.Ctx, s *sched, rule string) {
 						return true
 					}
 					for _, callee := range c.P.Callees(&call.Call) {
-						if callee == s.schedule {
+						if s.isSchedule(callee) {
 							return true
 						}
 					}
@@ -311,7 +424,7 @@ func errorReport(c *an.Ctx, s *sched, rule string) {
 		}
 		return false
 	}
-	for _, ci := range an.CallsIn(s.runStage, "(*pkg/scheduler.Scheduler).Schedule") {
+	for _, ci := range s.scheduleCallsIn(s.runStage) {
 		if call, ok := ci.(*ssa.Call); ok {
 			c.Check(flows(call), rule, an.Short(s.runStage)+":nested-result", call.Pos(), "the nested pipeline's error is what gets recorded, unchanged", "the nested pipeline's error is not what the stage records as the run's error")
 		}
@@ -670,7 +783,7 @@ func doneTest(c *an.Ctx, s *sched, rule string) {
 	if len(call.Call.Args) > 0 {
 		same := false
 		for _, a := range call.Call.Args {
-			if an.SameValue(a, s.schedule.Params[1]) {
+			if an.SameValue(a, s.graph) {
 				same = true
 			}
 		}
@@ -678,7 +791,7 @@ func doneTest(c *an.Ctx, s *sched, rule string) {
 			if graphs, ok := allNodesOf(c.P, call.Call.Args[nodesParam], 2); ok && len(graphs) > 0 {
 				same = true
 				for _, g := range graphs {
-					if !an.SameValue(g, s.schedule.Params[1]) {
+					if !an.SameValue(g, s.graph) {
 						same = false
 					}
 				}
@@ -686,4 +799,14 @@ func doneTest(c *an.Ctx, s *sched, rule string) {
 		}
 		c.Check(same, rule, an.Short(s.launchFn)+":done-graph", call.Pos(), "done test is applied to the graph being scheduled", "done test is applied to a different graph")
 	}
+}
+
+// inLoop reports whether b lies on a cycle of its function's control-flow graph.
+func inLoop(b *ssa.BasicBlock) bool {
+	for _, sc := range b.Succs {
+		if sc == b || an.CanReach(sc, b) {
+			return true
+		}
+	}
+	return false
 }
